@@ -555,6 +555,12 @@ OBLIGATIONS.append(k2("once.wrapper", _k2h("react::react_commands", "once_reacto
                              "removes is decided by the C06 obligations, what the token names by token.every_member)"],
                       no_native_playback=True, witness=[["once", "twice"], ["once", "self_trigger"]]))
 
+OBLIGATIONS.append(k2("token.duplicate_member", _k2h("react::reaction_trigger", "token_keeps_duplicate_member"), ["C06", "C15", "C16"],
+                      ["RevokeToken::new_from", "get_reactor_types", "ReactionTriggerBundle::collect_reactor_types"],
+                      ["src/react/reaction_trigger.rs", "src/react/utils.rs"], "two-member bundle repeating one broadcast trigger",
+                      "the token names a repeated trigger once per member (registration stores one handle per member, so a shorter "
+                      "token would leave a registration behind after the revoke)",
+                      witness=[["revoke_dup", "once_duplicate"]]))
 OBLIGATIONS.append(k2("once.witness", _k2h("react::react_commands", "once_reactor_witness"), ["C15"], [], ["src/react/react_commands.rs"], "-",
                       "vacuity twin of once.wrapper", expect="fail",
                       stubs=["ReactCommands::revoke -> record_revoke"]))
@@ -760,7 +766,7 @@ _QUICK_ONLY_FOR = {
     "desp.witness": ["C12"], "ent.witness": ["C12"], "bundle.reactor_types": ["C06", "C16"],
     "rc.broadcast_0_2": ["C01", "C05"], "rc.broadcast_2_1": ["C01", "C05", "C03"],
     # runner steps / command application / setup-cleanup pairs (measured 25-150 s each)
-    "runner.replay_1_nested": ["C09"], "runner.replay_2_root": ["C02", "C11", "C05"], "runner.replay_3_root": ["C12"], "runner.poll_reaction": ["C08", "C02"], "runner.polls_after_run": ["C08", "C07"],
+    "runner.replay_1_nested": ["C09"], "runner.replay_2_root": ["C02", "C11", "C05"], "runner.replay_3_root": ["C12", "C09"], "runner.poll_reaction": ["C08", "C02"], "runner.polls_after_run": ["C08", "C07"],
     "runner.missing_root": ["C02", "C18"], "runner.entity_without_system": ["C11", "C05"],
     "runner.busy_nested": ["C02", "C09", "C12"], "runner.plain_run": ["C02", "C13", "C04", "C09"], "runner.witness": ["C02", "C09"],
     "cmd.apply_system_command": ["C02"], "cmd.apply_event_command": ["C05", "C12"], "cmd.apply_reaction_resource": ["C02"],
